@@ -4,7 +4,7 @@
 //! are compared (public observables + hooked hidden state); the first divergence is attributed to
 //! the property that governs the function executed at that step (DESIGN §3.4).
 
-use crate::cmp::{compare_hidden, compare_parser, compare_public, compare_public_opt, MisKind, Mismatch};
+use crate::cmp::{compare_hidden, compare_parser, compare_public, compare_public_opt, Above, MisKind, Mismatch};
 use crate::hist::{esc, Call, History};
 use crate::model::parser::{conv, Act, PModel, St, F};
 use crate::model::term::Model;
@@ -361,7 +361,7 @@ impl Diff {
                     self.since_full = 0;
                     usize::MAX
                 } else {
-                    eff.sb_push + 1
+                    eff.sb_push + eff.above_push + 1
                 };
                 let mut mis = compare_public(&self.vt, &self.m, tail);
                 if mis.is_some() {
@@ -380,13 +380,32 @@ impl Diff {
                 if mis.is_none() {
                     mis = compare_parser(&vs, &self.pm);
                 }
-                if let Some(mis) = mis {
+                if let Some(mut mis) = mis {
                     let scrolled = eff.scroll_n > 0;
-                    let props = refine(props_of(&f, scrolled), &mis);
+                    let mut props = refine(props_of(&f, scrolled), &mis);
+                    if mis.kind == MisKind::HPending {
+                        // the flag and the reported cursor disagree: show what that does to the next
+                        // printable character (C04: "written into the cell under the cursor")
+                        let c = self.vt.cursor();
+                        if c.col < self.m.cols {
+                            self.vt.feed('X');
+                            let landed = self.vt.view()[c.row].cells().get(c.col).map(|cell| cell.char());
+                            if landed != Some('X') {
+                                props.push("C04");
+                                props.sort();
+                                props.dedup();
+                                let c2 = self.vt.cursor();
+                                mis.msg = format!("{}; a following 'X' is not written under the cursor ({},{}): that cell holds {:?}, cursor now ({},{})", mis.msg, c.col, c.row, landed, c2.col, c2.row);
+                            }
+                        }
+                    }
                     return Self::diverge(props, format!("after {:?} (char {:?}): {}", f, ch, mis.msg));
                 }
                 if in_focus {
                     rep.count("focus_functions", 1);
+                    if self.m.alt && !self.m.above.is_empty() {
+                        rep.count("focus_functions_with_rows_above_alternate_view", 1);
+                    }
                     if writes_cells(&f) || before != Some(scalars(&self.m)) || eff.scroll_n > 0 {
                         rep.key(key);
                     }
@@ -467,7 +486,9 @@ impl Diff {
             Call::Feed(s) => s.chars().for_each(|ch| self.vt2.feed(ch)),
             Call::Resize(c, r) => drop(self.vt2.resize(*c, *r)),
         }
-        let mut mis = compare_public_opt(&self.vt2, &self.m, usize::MAX, self.limited);
+        // feed_str and resize trim when they return, feed() never does
+        let above = if let Call::Feed(_) = call { Above::Newest } else { Above::Nothing };
+        let mut mis = compare_public_opt(&self.vt2, &self.m, usize::MAX, self.limited, above);
         if mis.is_none() {
             mis = compare_hidden(&self.vt2.verif_state(), &self.m);
         }
@@ -495,6 +516,7 @@ impl Diff {
     pub fn resize(&mut self, cols: usize, rows: usize, rep: &mut Report) -> End {
         // normalise: `feed` (unlike `feed_str`) never trims, a resize is always preceded by a trim
         drop(self.vt.feed_str(""));
+        self.m.above.clear();
         let (oc, or) = (self.m.cols, self.m.rows);
         drop(self.vt.resize(cols, rows));
         self.m.resize(cols, rows, &self.vt);
